@@ -205,18 +205,21 @@ func judgeC18Inner(rec *stats.Rec, c c18Case) (string, string) {
 		}
 		rec.Class("tld_lint_executed")
 		cert := run.Cert
-		for _, n := range append([]string{cert.Subject.CommonName}, cert.DNSNames...) {
-			if !judgeable(n) {
-				rec.Class("ambiguous_non_ascii_label_skipped")
-				return "", ""
+		// the test applied to each name: the model - or, for a label the model does not judge (a character that
+		// some case mapping relates to ASCII), the function itself: the lint is *defined* by the test, name by name
+		test := func(n string) bool {
+			if judgeable(n) {
+				return tldValidModel(n, cert.NotBefore)
 			}
+			rec.Class("ambiguous_label_judged_by_function")
+			return util.HasValidTLD(n, cert.NotBefore)
 		}
 		bad := false
-		if cn := cert.Subject.CommonName; cn != "" && !cnIsIP(cn) && !tldValidModel(cn, cert.NotBefore) {
+		if cn := cert.Subject.CommonName; cn != "" && !cnIsIP(cn) && !test(cn) {
 			bad = true
 		}
 		for _, d := range cert.DNSNames {
-			if !tldValidModel(d, cert.NotBefore) {
+			if !test(d) {
 				bad = true
 			}
 		}
@@ -322,7 +325,7 @@ func TestC18(t *testing.T) {
 		}
 		for bi, b := range bounds {
 			for _, off := range []int64{-1, 0, 1} {
-				for si, dom := range []string{"example." + k, "WWW.EXAMPLE." + strings.ToUpper(k), k} {
+				for si, dom := range []string{"example." + k, "WWW.EXAMPLE." + strings.ToUpper(k), k, "example." + bit5Cleared(k)} {
 					c := c18Case{What: "func", Domain: dom, Unix: b + off, Zone: zones[(i+si)%len(zones)]}
 					rec.Eval()
 					rec.NT(stats.HashS("boundary", k, fmt.Sprint(bi), fmt.Sprint(off), fmt.Sprint(si)))
@@ -529,7 +532,11 @@ func TestC18(t *testing.T) {
 		}
 		v.SetSAN(false, gns...)
 		switch rapid.IntRange(0, 6).Draw(rt, "cn") {
-		case 5, 6:
+		case 5:
+			// a common name that differs from the first SAN name only by characters that case folding relates to ASCII
+			tw := strings.NewReplacer("s", "\u017f", "k", "\u212a", "S", "\u017f", "K", "\u212a").Replace(names[0])
+			v.SetCN([]byte(tw), 12)
+		case 6:
 			// strings around the "is the common name an IP address" decision
 			v.SetCN([]byte(rapid.SampledFrom(ipLikeCNs).Draw(rt, "iplike")), 12)
 		case 0:
@@ -570,6 +577,16 @@ func TestC18(t *testing.T) {
 			rec.Sample(map[string]interface{}{"base": o.Name, "dns": names, "not_before": nb.UTC().Format(time.RFC3339)})
 		}
 	})
+}
+
+// bit5Cleared clears bit 5 of every octet: letters become upper case - and '-' becomes CR, the digits become
+// the control characters 0x10-0x19. Not a case variant of the key unless the key is letters only.
+func bit5Cleared(k string) string {
+	b := []byte(k)
+	for i := range b {
+		b[i] &^= 0x20
+	}
+	return string(b)
 }
 
 // judgeable: the right-most label is pure ASCII, or contains no character that any case mapping relates to an
